@@ -432,24 +432,50 @@ class Discharger(object):
         side = list(self.ex.fc.side)
         aa, ab = self.uf_apps(ta), self.uf_apps(tb)
         subs_a, subs_b, extra = [], [], []
+        # applications that are literally the same term on both sides share one variable
+        ida = {x.get_id() for x in aa}
+        common = [x for x in ab if x.get_id() in ida]
+        if common:
+            cs = [(x, z3.Real('ufc!%d!%d' % (depth, i))) for i, x in enumerate(common)]
+            ta = z3.substitute(ta, *cs)
+            tb = z3.substitute(tb, *cs)
+            cid = {x.get_id() for x in common}
+            aa = [x for x in aa if x.get_id() not in cid]
+            ab = [x for x in ab if x.get_id() not in cid]
         if aa or ab:
             paired = len(aa) == len(ab) and all(x.decl().name() == y.decl().name() for x, y in zip(aa, ab))
             if paired:
                 for k, (x, y) in enumerate(zip(aa, ab)):
                     name = x.decl().name()
                     exact_all = True
+                    mirrored = False
                     for i in range(x.num_args()):
                         if x.arg(i).eq(y.arg(i)):
                             continue
                         want = Fraction(0) if ((name, i) in EXACT_ARGS or name not in LIPS) else ARGTOL
                         v, m = self.close_terms(pc, x.arg(i), y.arg(i), want, depth + 1)
+                        if v != 'unsat' and name in ('erfc', 'erf'):
+                            # erfc(-v) = 2 - erfc(v), erf(-v) = -erf(v)
+                            v2, m2 = self.close_terms(pc, x.arg(i), -y.arg(i), want, depth + 1)
+                            if v2 == 'unsat':
+                                mirrored = True
+                                v = 'unsat'
                         if v != 'unsat':
                             return v, m
                         if want != 0:
                             exact_all = False
                     u = z3.Real('uf!%d!%d' % (depth, k))
                     subs_b.append((y, u))
-                    if exact_all:
+                    if mirrored:
+                        ux = (2 - u) if name == 'erfc' else (-u)
+                        if exact_all:
+                            subs_a.append((x, ux))
+                        else:
+                            dlt = z3.Real('ufd!%d!%d' % (depth, k))
+                            lim = realq(LIPS[name] * ARGTOL)
+                            extra += [dlt <= lim, dlt >= -lim]
+                            subs_a.append((x, ux + dlt))
+                    elif exact_all:
                         subs_a.append((x, u))
                     else:
                         dlt = z3.Real('ufd!%d!%d' % (depth, k))
